@@ -281,7 +281,7 @@ def replay_all(ctx, desc, items, nproc):
     if nproc <= 1 or len(items) < 200:
         res = [_replay_chunk((desc, items))]
     else:
-        n = 64
+        n = 4 * nproc
         chunks = [(desc, items[k::n]) for k in range(n)]
         with multiprocessing.get_context("fork").Pool(nproc) as pool:
             res = pool.map(_replay_chunk, chunks, chunksize=1)
@@ -466,9 +466,11 @@ def judge(ctx, label, traces):
     out = {}
     for line in res.stdout.splitlines():
         line = line.strip()
-        if line.startswith('"C14FAIL|') and line.endswith('"'):
+        if line.startswith('"C14FAIL|') and line.endswith('"') and line.count("C14FAIL|") == 1:
             _, tid, val = line[1:-1].split("|", 2)
             out[int(tid)] = tlc.parse_value(val.replace('\\"', '"'))
+        elif "C14FAIL|" in line:
+            raise MachineryError("garbled verdict line from TLC: %r" % line[:200])
     return out
 
 
